@@ -49,6 +49,8 @@ func main() {
 			}
 		}
 	}
+	// fingerprint of the shared init-time tables after everything has run (never before: that would warm them up)
+	fmt.Println("DIGEST", c18work.SharedDigest())
 	for _, b := range bad {
 		fmt.Println("MISMATCH", b)
 	}
